@@ -172,6 +172,9 @@ func (fr *frame) callFunc(x ssa.Instruction, callee *ssa.Function, args, free []
 				fr.vc.oblige("pre", fmt.Sprintf("pre/%s->%s/nonnil:%s", relName(fr.fn), relName(callee), pn), fr.safetyProps(), st.reach, Not(Eq(a.T, IntLit(0))), fr.pos(x.Pos()))
 				fr.vc.assume(st.reach, Not(Eq(a.T, IntLit(0))))
 			}
+			if fc != nil && strings.Contains(" "+fc.Opts["nodatainv"]+" ", " "+pn+" ") {
+				continue
+			}
 			for k, t := range fr.w.dataInvTerms(a, st.heap, fr.vc) {
 				fr.vc.oblige("pre", fmt.Sprintf("pre/%s->%s/datainv:%s#%d", relName(fr.fn), relName(callee), pn, k+1), fr.safetyProps(), st.reach, t, fr.pos(x.Pos()))
 			}
